@@ -76,4 +76,11 @@ PROPS = {
         "assumptions": ["fields()/unwind() are exercised on top-level property names only (nested include/exclude paths of jsonpath are not modelled)",
                         "programs whose window/distinct step is followed by anything but count are compared by size only (their rows depend on scan order)"],
     },
+    "C02": {
+        "trusted_base": [
+            "the production planner itself (engine/core/optimize.go IndexStartOptimize, engine/inspect PipelineStepOutputs, pipeline.State.StepLoadData) is NOT modelled in Coq yet: it is compared, on every run, with the literal semantics of Model/Traversal.v (the C01 model), on kvgraph and on a harness backend that honours the load hint for vertices",
+            "same trusted base as C01 for the literal semantics",
+        ],
+        "assumptions": ["label index entries agree with vertex labels (C03; known findings 1 and 3 of C03 are the exceptions)"],
+    },
 }
